@@ -106,7 +106,8 @@ def diagnose_hist(ls, mechanism, raw):
                     return 'F03'
         # F25: Py Bucket/Set minKey()/maxKey() on an empty container
         if (impl == 'py' and not ls.is_tree and op in ('minKey', 'maxKey')
-                and not raw['args'] and not raw['present']
+                and (not raw['args'] or raw['args'] == (None,))
+                and not raw['present']
                 and ro[:2] == ('exc', 'IndexError')
                 and mo[:2] == ('exc', 'ValueError')):
             return 'F25'
